@@ -22,8 +22,9 @@ import (
 // process must have swept refBudget successive canaries meanwhile.
 
 type readLoadParams struct {
-	Big     int `json:"big"`     // objects in the large collection
-	Readers int `json:"readers"` // connections looping slow reads
+	Big      int  `json:"big"`      // objects in the large collection
+	Readers  int  `json:"readers"`  // connections looping slow reads
+	Spinlock bool `json:"spinlock"` // server runs with --spinlock
 }
 
 type readLoadResult struct {
@@ -54,12 +55,16 @@ func maxDur(d []time.Duration) time.Duration {
 
 func runReadLoad(p readLoadParams) (res readLoadResult) {
 	res.Labels = map[string]int{}
-	srv, err := startServer("")
+	srv, err := startServerOpts("", t38.Opts{Spinlock: p.Spinlock})
 	if err != nil {
 		res.Incon = append(res.Incon, "server start: "+err.Error())
 		return
 	}
 	defer srv.Stop()
+	key, lock, floor := "expiry-starved-by-readers", "default lock", 5*time.Second
+	if p.Spinlock {
+		key, lock, floor = "spinlock-readers-starve-writers", "--spinlock", 10*time.Second
+	}
 	ref, err := startServer("")
 	if err != nil {
 		res.Incon = append(res.Incon, "reference server start: "+err.Error())
@@ -254,8 +259,8 @@ func runReadLoad(p readLoadParams) (res readLoadResult) {
 		// sweeper queues as a writer + the longest reader command it then has to
 		// wait for, times 10; never less than 5 s
 		bound = 10 * (200*time.Millisecond + 250*time.Millisecond + mr)
-		if bound < 5*time.Second {
-			bound = 5 * time.Second
+		if bound < floor {
+			bound = floor
 		}
 		if over := time.Since(lastHi); over > bound {
 			prompt := median(probeRTT) <= 100*time.Millisecond && maxDur(probeRTT) <= time.Second
@@ -270,9 +275,9 @@ func runReadLoad(p readLoadParams) (res readLoadResult) {
 					left = append(left, e.id)
 				}
 			}
-			res.V = &violation{Key: "expiry-starved-by-readers", What: fmt.Sprintf(
-				"%d reader connections loop slow reads over a %d-object collection (no writes; %d reads completed, longest %v): %v are still served %v after the last deadline (bound %v = 10 x (200 ms sweep period + 250 ms spin + longest read), at least 5 s), although the probe connection's own %d reads were answered promptly (median %v, max %v) and an idle server in the same process swept %d successive canaries meanwhile",
-				p.Readers, p.Big, nread, mr.Round(time.Millisecond), left, over.Round(time.Millisecond), bound, len(probeRTT), median(probeRTT).Round(time.Microsecond), maxDur(probeRTT).Round(time.Millisecond), refSwept)}
+			res.V = &violation{Key: key, What: fmt.Sprintf(
+				"server with %s: %d reader connections loop slow reads over a %d-object collection (no writes; %d reads completed, longest %v): %v are still served %v after the last deadline (bound %v = 10 x (200 ms sweep period + 250 ms spin + longest read), at least %v), although the probe connection's own %d reads were answered promptly (median %v, max %v) and an idle server in the same process swept %d successive canaries meanwhile",
+				lock, p.Readers, p.Big, nread, mr.Round(time.Millisecond), left, over.Round(time.Millisecond), bound, floor, len(probeRTT), median(probeRTT).Round(time.Microsecond), maxDur(probeRTT).Round(time.Millisecond), refSwept)}
 			return
 		}
 		time.Sleep(10 * time.Millisecond)
@@ -296,44 +301,73 @@ func runReadLoad(p readLoadParams) (res readLoadResult) {
 		}
 	}
 	res.Labels["reads-completed-during-the-wait"] = len(readDur)
-	res.Notes = append(res.Notes, fmt.Sprintf("%d objects, %d readers: %d reads in %v (median %v, longest %v); expiry seen at most %v after the deadline; probe RTT median %v max %v",
-		p.Big, p.Readers, len(readDur), time.Since(t0).Round(time.Millisecond), median(readDur).Round(time.Millisecond), maxDur(readDur).Round(time.Millisecond), worst.Round(time.Millisecond), median(probeRTT).Round(time.Microsecond), maxDur(probeRTT).Round(time.Millisecond)))
+	res.Notes = append(res.Notes, fmt.Sprintf("%s: %d objects, %d readers: %d reads in %v (median %v, longest %v); expiry seen at most %v after the deadline; probe RTT median %v max %v",
+		lock, p.Big, p.Readers, len(readDur), time.Since(t0).Round(time.Millisecond), median(readDur).Round(time.Millisecond), maxDur(readDur).Round(time.Millisecond), worst.Round(time.Millisecond), median(probeRTT).Round(time.Microsecond), maxDur(probeRTT).Round(time.Millisecond)))
 	if len(readDur) < 20 {
 		res.Incon = append(res.Incon, "fewer than 20 reads completed: no read load to speak of")
 	}
 	return
 }
 
-const readLoadRule = "a collection of 40 000 (thorough 120 000) points with a field, 7 objects with EX 0.6-1.8 s and a channel with EX 1.2 s elsewhere, then 6 (thorough 4-8 by shard) connections loop slow reads over the large collection (SCAN WHERE COUNT, NEARBY WHERE LIMIT IDS, SCAN WHEREEVAL COUNT, SCAN WHERE IDS) and nothing writes; a probe connection only reads. " +
-	"Oracle: never-early as everywhere; every deadline must have been honoured within 10 x (200 ms sweep period + 250 ms low-priority spin + longest measured read), at least 5 s, after the last deadline - a time bound, stated as such: it is a violation (expiry-starved-by-readers) only if the probe's own reads were answered promptly (median <= 100 ms, max <= 1 s) and an idle reference server in the same process swept 10 successive canaries meanwhile; otherwise inconclusive. Non-trivial: at least 20 reads completed while the deadlines passed."
+const readLoadRule = "two servers, one with the default lock and one with --spinlock, each: a collection of 40 000 (thorough 120 000) points with a field, 7 objects with EX 0.6-1.8 s and a channel with EX 1.2 s elsewhere, then 6 (thorough 4-8 by shard) connections loop slow reads over the large collection (SCAN WHERE COUNT, NEARBY WHERE LIMIT IDS, SCAN WHEREEVAL COUNT, SCAN WHERE IDS) and nothing writes; a probe connection only reads. " +
+	"Oracle: never-early as everywhere; every deadline must have been honoured within 10 x (200 ms sweep period + 250 ms low-priority spin + longest measured read), at least 5 s (10 s with --spinlock), after the last deadline - a time bound, stated as such: it is a violation (expiry-starved-by-readers, with --spinlock spinlock-readers-starve-writers) only if a second run reproduces it, the probe's own reads were answered promptly (median <= 100 ms, max <= 1 s) and an idle reference server in the same process swept 10 successive canaries meanwhile; otherwise inconclusive. Non-trivial: at least 20 reads completed while the deadlines passed."
 
 func TestC14_ReadLoad(t *testing.T) {
 	c := ev.New("C14", "readload", "exploration")
 	t.Cleanup(c.Flush)
 	c.Rule(readLoadRule)
-	c.Assume("eventual-under-read-load is decided by a stated time bound (>= 5 s against an expected <= 0.7 s), guarded by probe promptness and a same-process reference sweeper")
-	p := readLoadParams{Big: ev.Pick(40000, 120000), Readers: 6}
+	c.Assume("eventual-under-read-load is decided by a stated time bound (>= 5 s, with --spinlock >= 10 s, against an expected <= 0.7 s), guarded by probe promptness and a same-process reference sweeper; a violation is reported only when a second run reproduces it")
+	readers := 6
 	if ev.Thorough() {
-		p.Readers = 4 + ev.Shard()%5
+		readers = 4 + ev.Shard()%5
 	}
-	c.Case()
-	res := runReadLoad(p)
-	for l, n := range res.Labels {
-		c.LabelN(l, n)
+	ps := []readLoadParams{
+		{Big: ev.Pick(40000, 120000), Readers: readers},
+		{Big: ev.Pick(40000, 120000), Readers: readers, Spinlock: true},
 	}
-	for _, s := range res.Notes {
-		c.Note("%s", s)
+	results := make([]readLoadResult, len(ps))
+	var wg sync.WaitGroup
+	for i := range ps {
+		wg.Add(1)
+		go func(i int) {
+			defer wg.Done()
+			results[i] = runReadLoad(ps[i])
+		}(i)
 	}
-	for _, s := range res.Incon {
-		c.Inconclusive("%s", s)
-	}
-	if res.V == nil && len(res.Incon) == 0 {
-		c.NonTrivial(fmt.Sprintf("big%d/readers%d", p.Big, p.Readers))
-		c.Sample(map[string]any{"params": p, "notes": res.Notes})
-	}
-	if res.V != nil {
-		path := c.Violation(res.V.Key, res.V.What, map[string]any{"params": p})
-		t.Errorf("VIOLATION-CANDIDATE key=%s: %s (replay %s)", res.V.Key, res.V.What, path)
+	wg.Wait()
+	for i, p := range ps {
+		res := results[i]
+		c.Case()
+		tag := map[bool]string{false: "default-lock", true: "spinlock"}[p.Spinlock]
+		if res.V != nil && res.V.Key != "expired-early" {
+			// a time bound decides: report only what a second, solo run reproduces
+			again := runReadLoad(p)
+			c.Case()
+			if again.V == nil || again.V.Key != res.V.Key {
+				c.Inconclusive("%s: %s [not reproduced by a second run: %v]", tag, res.V.What, again.Incon)
+				res.V = nil
+				res.Incon = append(res.Incon, "first run exceeded the bound, second did not")
+			} else {
+				res = again
+			}
+		}
+		for l, n := range res.Labels {
+			c.LabelN(tag+":"+l, n)
+		}
+		for _, s := range res.Notes {
+			c.Note("%s", s)
+		}
+		for _, s := range res.Incon {
+			c.Inconclusive("%s: %s", tag, s)
+		}
+		if res.V == nil && len(res.Incon) == 0 {
+			c.NonTrivial(fmt.Sprintf("%s/big%d/readers%d", tag, p.Big, p.Readers))
+			c.Sample(map[string]any{"params": p, "notes": res.Notes})
+		}
+		if res.V != nil {
+			path := c.Violation(res.V.Key, res.V.What+" [reproduced by a second run]", map[string]any{"params": p})
+			t.Errorf("VIOLATION-CANDIDATE key=%s: %s (replay %s)", res.V.Key, res.V.What, path)
+		}
 	}
 }
 
